@@ -1,0 +1,20 @@
+//go:build verif
+
+package app
+
+import (
+	"google.golang.org/grpc"
+
+	"github.com/glebziz/fs_db/internal/di"
+)
+
+// VerifContainer gives the verification harness access to the DI container.
+func (a *app) VerifContainer() *di.Container {
+	return a.container
+}
+
+// VerifServer gives the verification harness access to the assembled gRPC
+// server, so that it can be served on a listener chosen by the harness.
+func (a *app) VerifServer() *grpc.Server {
+	return a.server
+}
